@@ -59,7 +59,7 @@ package bus
 //@   ensures[C16] err != nil ==> forall k uint32 :: (at_unlock(has(s.objects, k)) <==> at_lock(has(s.objects, k))) && (at_unlock(has(s.boxes, k)) <==> at_lock(has(s.boxes, k)))
 
 //@ func (s *serviceImpl) Receive(m *net.Message, from Channel) (err error)
-//@   tags C16
+//@   tags C16 C12
 //@   requires !s.RWMutex.lockw && s.RWMutex.lockr == 0
 //@   requires m != nil && from != nil
 //@   modifies everything
@@ -193,7 +193,7 @@ package bus
 //@   trusted
 //@   modifies everything
 //@ func (r *Router) Receive(m *net.Message, from Channel) (err error)
-//@   tags C06 C04
+//@   tags C06 C04 C12
 //@   requires !r.RWMutex.lockw && r.RWMutex.lockr == 0 && m != nil && from != nil
 //@   modifies everything
 //@   ensures !r.RWMutex.lockw && r.RWMutex.lockr == 0
@@ -202,7 +202,7 @@ package bus
 // The per-connection consumer loop of server.handle: a message is handed to the router only on a
 // path where firewall accepted it (authenticated connection, or service 0).
 //@ func (s *server) handle$2()
-//@   tags C06
+//@   tags C06 C12
 //@   requires context != nil && consumer != nil && stream != nil && s != nil && s.Router != nil
 //@   requires !s.Router.RWMutex.lockw && s.Router.RWMutex.lockr == 0
 //@   modifies everything
@@ -215,7 +215,7 @@ package bus
 // Service 0 (authentication service): any action other than authenticate is answered with an
 // error and changes nothing.
 //@ func (s *serviceAuthenticate) Receive(m *net.Message, from Channel) (err error)
-//@   tags C06
+//@   tags C06 C12
 //@   requires m != nil && from != nil && s.auth != nil
 //@   modifies everything
 //@   ensures[C06] old(m.Header.Action) != 8 ==> from.authd == old(from.authd) && from.errsent == old(from.errsent) + 1
@@ -280,7 +280,7 @@ package bus
 // private to this call (every element read after the release carries the obligation that the
 // protected field no longer refers to that array), each of its entries is sent one error message.
 //@ func (o *signalHandler) OnTerminate()
-//@   tags C16
+//@   tags C16 C12
 //@   requires !o.signalsMutex.lockw && o.signalsMutex.lockr == 0
 //@   modifies everything
 //@   ensures[C16] !o.signalsMutex.lockw && o.signalsMutex.lockr == 0
@@ -296,7 +296,7 @@ package bus
 //@   trusted
 //@   modifies everything
 //@ func NewMailBox$1()
-//@   tags C04
+//@   tags C04 C12
 //@   opt recv_nonnil yes
 //@   requires r != nil && box != nil
 //@   modifies everything
@@ -406,7 +406,7 @@ package bus
 // UpdateSignal: the matching entries are collected under the read lock into a private slice, then
 // each of them (and nobody else) is sent one event, in table order.
 //@ func (o *signalHandler) UpdateSignal(signalID uint32, data []byte) (ret error)
-//@   tags C13
+//@   tags C13 C12
 //@   requires !o.signalsMutex.lockw && o.signalsMutex.lockr == 0
 //@   modifies everything
 //@   ensures[C13] !o.signalsMutex.lockw && o.signalsMutex.lockr == 0
@@ -485,7 +485,7 @@ package bus
 //@   ensures[C14] has(o.properties, name) && o.properties[name] == newValue
 //@   ensures[C14] forall k string {at_unlock(has(o.properties, k))} :: k != name ==> (at_unlock(has(o.properties, k)) <==> at_lock(has(o.properties, k)))
 //@ func (o *objectImpl) Property(name value.Value) (result value.Value, err error)
-//@   tags C14
+//@   tags C14 C12
 //@   requires !o.propertiesMutex.lockw && o.propertiesMutex.lockr == 0
 //@   modifies everything
 //@   ensures[C14] !o.propertiesMutex.lockw && o.propertiesMutex.lockr == 0
@@ -496,7 +496,7 @@ package bus
 // typed write stores nothing and emits nothing; an accepted write stores the value and emits
 // exactly one change event for the property's id.
 //@ func (o *objectImpl) SetProperty(name value.Value, newValue value.Value) (err error)
-//@   tags C14
+//@   tags C14 C12
 //@   requires name != nil && newValue != nil && o.signalHandler != nil
 //@   requires !o.propertiesMutex.lockw && o.propertiesMutex.lockr == 0 && !o.signalHandler.signalsMutex.lockw && o.signalHandler.signalsMutex.lockr == 0
 //@   modifies everything
